@@ -266,6 +266,16 @@ theorem parseAligned_encode {t t' : ElemTy} (hv' : t'.Valid) (n : Nat) (payload 
     omega
   · simp [h, bind, Except.bind]
 
+theorem encodeAlignedRaw_drop (t : ElemTy) (n : Nat) (payload : Bytes) (base : Nat) :
+    (encodeAlignedRaw t n payload base).drop (alignedDataOffset t n base) = payload := by
+  rw [encodeAlignedRaw_eq]
+  have e : alignedMarker :: typedHeader t :: (writeSize n ++ UInt8.ofNat (alignedPad t n base) ::
+        (List.replicate (alignedPad t n base) 0 ++ payload)) =
+      (alignedMarker :: typedHeader t :: (writeSize n ++ UInt8.ofNat (alignedPad t n base) ::
+        List.replicate (alignedPad t n base) 0)) ++ payload := by simp
+  rw [e]
+  exact List.drop_left' (by simp [alignedDataOffset, writeSize_length]; omega)
+
 /-! ### element-level statements -/
 
 /-- A vector the theorems speak about: a `BeveTypedSlice` element type, blocks of the stated width,
